@@ -24,11 +24,13 @@
 
 extern void __asan_set_error_report_callback(void (*cb)(const char*)) __attribute__((weak));
 
-/* quiet reports: the text is taken from the callback, not from a log */
+/* quiet reports: the text is taken from the callback, not from a log.
+ * Allocations beyond 512 MiB fail (the driver sets allocator_may_return_null): whether a
+ * 17 GiB request of a corrupted count succeeds must not depend on the machine's memory. */
 const char*
 __asan_default_options(void)
 {
-	return "log_path=/dev/null";
+	return "log_path=/dev/null:max_allocation_size_mb=512";
 }
 
 #define C19_NCTR	24
